@@ -226,6 +226,15 @@ pub fn check(c: &Case) -> Outcome {
                 return Outcome::viol(format!("{}: Success but the last accepted step ended at {:e}, not xend={:e}", desc, te, xend));
             }
         }
+        // ... and the steps it stored must cover the interval: the dense output is the record of the steps really taken
+        // (a state labelled xend that belongs to a shorter step leaves the stored steps short of xend)
+        if c.dense && !real_events && !c.infinite && sol.naccpt > 0 {
+            if let Some((_, b)) = sol.sol_span() {
+                if !((b - xend).abs() <= 8.0 * tslack(xend)) {
+                    return Outcome::viol(format!("{}: Success, last sample at xend={:e}, but the steps stored for the dense output end at {:e} ({:e} short): the interval was not covered", desc, xend, b, (xend - b).abs()));
+                }
+            }
+        }
     } else if !real_events && !c.infinite {
         // converse: a run whose last accepted step reached xend must not report a failure
         if let Some(&te) = log.ev_t.last() {
